@@ -26,7 +26,7 @@ CO_ASSUME = [
 ]
 
 PROPS = {
-    "C01": dict(monitor="C01", proj="C01", modules=["C01", "C01seq", "C01g", "C01nest", "C01live", "C01live2", "C01live3", "C01live4", "C01liveAny", "C01liveG", "C01liveGAny", "C01liveN", "C01state"], monitors=["C01", "LV"], cfgs=ALL3V, ks=True, quick=900, thorough=12000,
+    "C01": dict(monitor="C01", proj="C01", modules=["C01", "C01seq", "C01g", "C01nest", "C01live", "C01live2", "C01live3", "C01live4", "C01liveAny", "C01liveG", "C01liveGAny", "C01liveN", "C01liveNAny", "C01state"], monitors=["C01", "LV"], cfgs=ALL3V, ks=True, quick=900, thorough=12000,
                 gens=[(GROUPS, "exh", 0.3), (["join", "try_join", "merge", "zip"] + GROUPS, "mt", 0.3), (ALL_FIXED, "drain", 0.5), (GROUPS, "drain", 0.3), (["join", "try_join", "race", "race_ok", "merge", "zip", "chain"], "exh", 0.4), (["nest"], "random", 0.35), (["nest"], "stuck", 0.1), (ALL_FIXED, "random", 1.0), (GROUPS, "random", 0.4), (GROUPS, "refill", 0.3), (CONC, "stuck", 0.3),
                       (["join", "try_join", "merge", "zip", "race", "chain"], "big", 0.05),
                       (["join", "try_join", "merge", "zip"], "waves", 0.08)],
